@@ -205,7 +205,7 @@ func init() {
 		trig := map[int][]treeParams{}
 		for _, sh := range [][2]int{{1, 1}, {1, 2}, {2, 1}} {
 			for _, st := range []int{1, 2} {
-				for _, ex := range []int{0, 4, 6, 7} {
+				for _, ex := range []int{0, 4, 6, 7, 8} {
 					clean = append(clean, treeParams{Depth: sh[0], Fan: sh[1], Stop: st, Extra: ex})
 				}
 				for _, ex := range []int{1, 2, 3, 5} {
